@@ -37,6 +37,19 @@ thread_local! {
     static LAST_PANIC: RefCell<(String, String)> = RefCell::new((String::new(), String::new()));
 }
 
+/// Crash journal: answers ("A …") and oracle lines ("O …") of the case in flight are appended to
+/// `<prefix>.journal` as they are produced, so that a process abort does not lose them.
+pub static JOURNAL: std::sync::Mutex<Option<std::fs::File>> = std::sync::Mutex::new(None);
+
+pub fn journal(kind: char, text: &str) {
+    if let Ok(mut g) = JOURNAL.lock() {
+        if let Some(f) = g.as_mut() {
+            use std::io::Write;
+            let _ = writeln!(f, "{kind} {text}");
+        }
+    }
+}
+
 pub fn clear_last_panic() {
     LAST_PANIC.with(|p| *p.borrow_mut() = (String::new(), String::new()));
 }
@@ -221,7 +234,8 @@ impl Shadow {
 pub struct Slot<K: KeyT> {
     pub obj: Obj<K>,
     pub shadow: Shadow,
-    /// "" | "C14" (born from a serialise/deserialise round trip) | "C15" (born from a document):
+    /// "" | "C14" (born from a serialise/deserialise round trip) | "C15" (born from a document) |
+    /// "C12" (a clone or the target of clone_from) | "C06" (converted into a view) | "C13" (cleared):
     /// a failure of any oracle on such an object is also a failure of that property
     /// ("a deserialised interner keeps working", "every safe call is well-defined").
     pub born: &'static str,
